@@ -138,9 +138,10 @@ def impl(op: str) -> str:
             return "ok None"
         c2 = r[1].override_network(NETS[a[2]])
         sc, ad, asm = _quiet(c2.script), _quiet(c2.address), _quiet(c2.disassemble)
-        return "ok script=%s address=%s asm=%s" % (hx(sc[1]) if sc[0] == "ok" else "err:" + sc[1],
-                                                    ("None" if ad[1] is None else ad[1]) if ad[0] == "ok" else "err:" + ad[1],
-                                                    th(asm[1]) if asm[0] == "ok" else "err:" + asm[1])
+        h = c2.hash160()
+        return "ok script=%s address=%s asm=%s h160=%s" % (hx(sc[1]) if sc[0] == "ok" else "err:" + sc[1],
+                                                           ("None" if ad[1] is None else ad[1]) if ad[0] == "ok" else "err:" + ad[1],
+                                                           th(asm[1]) if asm[0] == "ok" else "err:" + asm[1], "None" if h is None else hx(h))
     if k == "c08foraddress":
         r = _quiet(NETS[a[1]].contract.for_address, text_of(a[2]))
         return "err " + r[1] if r[0] == "err" else ("ok None" if r[1] is None else "ok " + hx(r[1]))
@@ -348,6 +349,10 @@ def _oracle2(a, k, out):
         ad = out.split(" ")[2][len("address="):]
         if " script=%s " % sc not in src + " ":
             return "override_network changed the script of the contract"
+        h160 = out.split(" ")[4][len("h160="):]
+        kind, _, payload = src[3:].split(" ")[0].partition(":")
+        if (h160 != "None") != (kind in ("p2pkh", "p2sh", "p2pkh_wit")) or (h160 != "None" and h160 != payload):
+            return "Contract.hash160() is not the 20-byte hash of a hash160-based contract (None otherwise)"
         want = impl("c08addr %s %s" % (a[2], sc))
         if want.startswith("ok ") and ad != want[3:]:
             return "the overridden contract's address is not the other network's address for its script"
